@@ -79,6 +79,6 @@ def check(ctx):
     for fnq, stmt in sorted(deepcopy_roots):
         ctx.ok("R10.1", "worker-local copy root", construct=stmt, where=fnq, detail="deepcopy root in " + fnq)
     ctx.floor("R10.1", "(implementor, entry point) pairs", len(pairs), 24)
-    ctx.floor("R10.1", "deepcopy roots on prediction paths", len(deepcopy_roots), 9)
+    ctx.floor("R10.1", "deepcopy roots on prediction paths", len(deepcopy_roots), 6)
     ctx.floor("R10.1", "store events examined", n_stores, 400)
     ctx.note("stores examined over all configurations: %d" % n_stores)
